@@ -1,13 +1,6 @@
 package rules
 
 import (
-	"go/token"
-	"go/types"
-	"strings"
-
-	"golang.org/x/tools/go/ssa"
-
-	"charonverif/internal/an"
 	"charonverif/internal/rt"
 )
 
@@ -75,388 +68,4 @@ func init() {
 			Old: "\treturn append([]core.ParSignedData(nil), db.entries[k]...), true, nil", New: "\treturn db.entries[k], true, nil"},
 		Mutant{ID: "C07-P10-evict-newest", File: "core/parsigdb/memory.go", Expect: "P10",
 			Old: "\t\tdb.evictExemptShareEntryUnsafe(ctx, stored[0], shareIdx)", New: "\t\tdb.evictExemptShareEntryUnsafe(ctx, k, shareIdx)"})
-}
-
-func c14M7(c *rt.Ctx) {
-	c.Rule("M7", 2, func() {
-		vbh := c.Fn("core/consensus/qbft.valuesByHash")
-		hp := c.Fn("core/consensus/qbft.hashProto")
-		ups := mapUpdates(vbh, func(m ssa.Value) bool { _, ok := m.(*ssa.MakeMap); return ok })
-		if len(ups) == 0 {
-			c.Bail("valuesByHash: no insertion into the result map")
-		}
-		for _, up := range ups {
-			good, why := false, "the key of a received value is not the result of hashProto"
-			if ex, ok := an.Unwrap(up.Key).(*ssa.Extract); ok && ex.Index == 0 {
-				if hc, ok := ex.Tuple.(*ssa.Call); ok && hc.Call.StaticCallee() == hp {
-					why = "hashProto is applied to the wrapper/bytes as received, not to the decoded message (UnmarshalNew of the element)"
-					if ix, ok := an.Unwrap(hc.Call.Args[0]).(*ssa.Extract); ok && ix.Index == 0 {
-						if uc, ok := ix.Tuple.(*ssa.Call); ok && uc.Call.StaticCallee() != nil && uc.Call.StaticCallee().Name() == "UnmarshalNew" {
-							good = true
-						}
-					}
-				}
-			}
-			c.Check("valuesByHash key = hashProto(decoded value)", posOf(up), good, why)
-		}
-		// proposer side: the hash proposed to QBFT is hashProto of the value
-		found := false
-		for _, fn := range an.PkgFuncs(c.SSAPkg("core/consensus/qbft")) {
-			if fn.Name() != "propose" && fn.Name() != "Propose" {
-				continue
-			}
-			for _, call := range an.Calls(fn, func(cc *ssa.CallCommon) bool { return cc.StaticCallee() == hp }, true) {
-				found = true
-				_, isParam := an.Resolve(call.Common().Args[0]).(*ssa.Parameter)
-				c.Check(an.FuncName(fn)+" proposes hashProto(value)", call.Pos(), isParam, "the proposed hash is not hashProto of the proposed value")
-			}
-		}
-		if !found {
-			c.Unsure("propose hashProto", token.NoPos, "no hashProto call on the proposing side found")
-		}
-	})
-}
-
-func c04Exact(c *rt.Ctx) {
-	c.Rule("T7", 13, func() {
-		for _, fn := range an.PkgFuncs(c.SSAPkg("core/qbft")) {
-			n := 0
-			for _, in := range an.Instrs(fn, false) {
-				bin, ok := in.(*ssa.BinOp)
-				if !ok {
-					continue
-				}
-				switch bin.Op {
-				case token.EQL, token.NEQ, token.LSS, token.LEQ, token.GTR, token.GEQ:
-				default:
-					continue
-				}
-				kind, side := c04Threshold(bin.X), 0
-				if kind == "" {
-					kind, side = c04Threshold(bin.Y), 1
-				}
-				if kind == "" {
-					continue
-				}
-				op := bin.Op
-				if side == 0 { // threshold on the left: flip to "count OP threshold"
-					switch op {
-					case token.LSS:
-						op = token.GTR
-					case token.LEQ:
-						op = token.GEQ
-					case token.GTR:
-						op = token.LSS
-					case token.GEQ:
-						op = token.LEQ
-					}
-				}
-				n++
-				good := false
-				switch kind {
-				case "quorum":
-					good = op == token.GEQ || op == token.LSS
-				case "f+1":
-					good = op == token.GEQ || op == token.LSS || op == token.EQL
-				case "f":
-					good = op == token.GTR || op == token.LEQ // count > f  ≡  count >= f+1
-				}
-				c.Check(c02Strip(an.FuncName(fn))+" "+kind+" comparison #"+itoa(n), posOf(bin), good,
-					"the count is compared with the "+kind+" threshold by `"+op.String()+"`: with exactly that many live members the rule never fires (or fires one short)")
-			}
-		}
-	})
-	c.Rule("T8", 1, func() {
-		fn := c.Fn("core/consensus/qbft.leader")
-		rets := an.Returns(fn)
-		if len(rets) != 1 || len(rets[0].Results) != 1 || len(fn.Params) != 3 {
-			c.Bail("leader: unexpected shape")
-		}
-		round, nodes := ssa.Value(fn.Params[1]), ssa.Value(fn.Params[2])
-		rem, ok := an.Unwrap(rets[0].Results[0]).(*ssa.BinOp)
-		good, why := false, "the leader index is not a sum taken modulo the number of nodes"
-		if ok && rem.Op == token.REM && an.Unwrap(rem.Y) == nodes {
-			why = "the round does not enter the leader index as a plain addend (coefficient 1): the rotation can skip members or stand still"
-			// collect addends of the sum
-			var addends []ssa.Value
-			var walk func(v ssa.Value)
-			walk = func(v ssa.Value) {
-				if b, ok := v.(*ssa.BinOp); ok && b.Op == token.ADD {
-					walk(b.X)
-					walk(b.Y)
-					return
-				}
-				addends = append(addends, v)
-			}
-			walk(rem.X)
-			nRound := 0
-			other := true
-			for _, a := range addends {
-				if an.Unwrap(a) == round {
-					nRound++
-				} else if usesValue(a, round, 0) {
-					other = false
-				}
-			}
-			good = nRound == 1 && other
-		}
-		c.Check("leader rotates by one per round", fn.Pos(), good, why)
-	})
-}
-
-func usesValue(v, target ssa.Value, d int) bool {
-	if d > 8 {
-		return false
-	}
-	if an.Unwrap(v) == target {
-		return true
-	}
-	in, ok := v.(ssa.Instruction)
-	if !ok {
-		return false
-	}
-	for _, op := range an.Operands(in) {
-		if usesValue(op, target, d+1) {
-			return true
-		}
-	}
-	return false
-}
-
-// c04Threshold classifies v as d.Quorum(), d.Faulty()+1 or d.Faulty().
-func c04Threshold(v ssa.Value) string {
-	v = an.Unwrap(v)
-	isCall := func(x ssa.Value, name string) bool {
-		call, ok := an.Unwrap(x).(*ssa.Call)
-		return ok && call.Call.StaticCallee() != nil && call.Call.StaticCallee().Name() == name &&
-			strings.HasPrefix(c02Strip(an.FuncName(call.Call.StaticCallee())), "core/qbft.Definition.")
-	}
-	if isCall(v, "Quorum") {
-		return "quorum"
-	}
-	if isCall(v, "Faulty") {
-		return "f"
-	}
-	if b, ok := v.(*ssa.BinOp); ok && b.Op == token.ADD {
-		if k, ok := an.ConstInt(b.Y); ok && k == 1 && isCall(b.X, "Faulty") {
-			return "f+1"
-		}
-	}
-	return ""
-}
-
-func gaterRule(c *rt.Ctx) {
-	c.Rule("GT", 2, func() {
-		mk := c.Fn("core.NewDutyGater")
-		var lit *ssa.Function
-		for _, f := range mk.AnonFuncs {
-			if len(f.Params) == 1 && an.TypeName(f.Params[0].Type()) == "core.Duty" {
-				lit = f
-			}
-		}
-		if lit == nil {
-			c.Bail("NewDutyGater: gater literal not found")
-		}
-		duty := ssa.Value(lit.Params[0])
-		bad := ""
-		var badPos token.Pos
-		for _, in := range an.Instrs(lit, false) {
-			cv, ok := in.(*ssa.Convert)
-			if !ok {
-				continue
-			}
-			from, ok1 := cv.X.Type().Underlying().(*types.Basic)
-			to, ok2 := cv.Type().Underlying().(*types.Basic)
-			if !ok1 || !ok2 || !usesSlot(cv.X, duty, 0) {
-				continue
-			}
-			if from.Info()&types.IsUnsigned != 0 && (to.Info()&types.IsUnsigned == 0 || to.Kind() == types.Uint32 || to.Kind() == types.Uint16 || to.Kind() == types.Uint8) {
-				bad, badPos = "the duty slot is converted from "+from.Name()+" to "+to.Name(), cv.Pos()
-			}
-		}
-		pos := lit.Pos()
-		if bad != "" {
-			pos = badPos
-		}
-		c.Check("NewDutyGater slot arithmetic stays unsigned 64-bit", pos, bad == "", bad+": a slot >= 2^63 wraps and passes the future-epoch window")
-		// every return that can yield true is the upper-bound comparison of a slot-derived value itself, or lies on
-		// the "slot-derived value <= bound" edge of a branch on such a comparison (any spelling)
-		good := true
-		nTrue := 0
-		for _, r := range an.Returns(lit) {
-			v := an.Unwrap(returnValues(r)[0])
-			if k, ok := v.(*ssa.Const); ok && k.Value != nil && k.Value.ExactString() == "false" {
-				continue
-			}
-			nTrue++
-			okRet := false
-			if bin, ok := v.(*ssa.BinOp); ok && (bin.Op == token.LEQ || bin.Op == token.GEQ || bin.Op == token.LSS || bin.Op == token.GTR) {
-				x, y := bin.X, bin.Y
-				if bin.Op == token.GEQ || bin.Op == token.GTR {
-					x, y = y, x
-				}
-				if usesSlot(x, duty, 0) && !usesSlot(y, duty, 0) {
-					okRet = true
-				}
-			}
-			if !okRet {
-				for _, in := range an.Instrs(lit, false) {
-					val, isVal := in.(ssa.Value)
-					if !isVal || !usesSlot(val, duty, 0) {
-						continue
-					}
-					for _, cd := range an.CondsOn(lit, val) {
-						if cd.Other == nil || usesSlot(cd.Other, duty, 0) {
-							continue
-						}
-						var pass *ssa.BasicBlock
-						switch cd.Op {
-						case token.LEQ, token.LSS:
-							pass = cd.Succ(true)
-						case token.GTR, token.GEQ:
-							pass = cd.Succ(false)
-						default:
-							continue
-						}
-						fail := cd.If.Block().Succs[0]
-						if fail == pass {
-							fail = cd.If.Block().Succs[1]
-						}
-						if (pass == r.Block() || pass.Dominates(r.Block())) && !an.CanReach(fail, r.Block(), nil) {
-							okRet = true
-						}
-					}
-				}
-			}
-			if !okRet {
-				good = false
-			}
-		}
-		if nTrue == 0 {
-			good = false
-		}
-		c.Check("NewDutyGater admits only dutyEpoch <= current + allowed", lit.Pos(), good, "the gater's verdict is not the upper-bound comparison of the duty's epoch")
-	})
-}
-
-func usesSlot(v, duty ssa.Value, d int) bool {
-	if d > 8 {
-		return false
-	}
-	v = an.Resolve(v)
-	switch x := v.(type) {
-	case *ssa.Field:
-		return an.Resolve(x.X) == duty && fieldNameOf(x.X.Type(), x.Field) == "Slot"
-	case *ssa.UnOp:
-		if fa, ok := x.X.(*ssa.FieldAddr); ok && x.Op == token.MUL {
-			return fieldNameOf(fa.X.Type(), fa.Field) == "Slot" && rootedAt(fa.X, duty)
-		}
-		return usesSlot(x.X, duty, d+1)
-	case *ssa.BinOp:
-		return usesSlot(x.X, duty, d+1) || usesSlot(x.Y, duty, d+1)
-	case *ssa.Convert:
-		return usesSlot(x.X, duty, d+1)
-	}
-	return false
-}
-
-func c17W5(c *rt.Ctx) {
-	c.Rule("W5", 1, func() {
-		n := 0
-		for _, fn := range an.PkgFuncs(c.SSAPkg("core/aggsigdb")) {
-			for _, in := range an.Instrs(fn, false) {
-				if !isLoadOfField(in, aggV2+".notify") {
-					continue
-				}
-				// Store closes and replaces it under the write lock (W2/W4)
-				if an.FuncName(fn) == aggV2+".Store" {
-					continue
-				}
-				n++
-				good := false
-				for _, in2 := range an.Instrs(fn, false) {
-					lk, ok := in2.(*ssa.Lookup)
-					if !ok || !lk.CommaOk || !isFieldMap(aggV2+".data")(lk.X) || !an.Dominates(lk, in) {
-						continue
-					}
-					// no explicit unlock between the lookup and the load
-					u := an.PathThrough(lk, in, func(x ssa.Instruction) bool {
-						call, ok := x.(*ssa.Call)
-						return ok && an.Static("sync.RWMutex.RUnlock", "sync.RWMutex.Unlock")(&call.Call)
-					})
-					if u == nil {
-						good = true
-					}
-				}
-				c.Check(an.FuncName(fn)+" reads notify in the lookup's critical section", in.Pos(), good,
-					"the notification channel is read outside the critical section of the lookup that missed: a Store in between replaces it and the reader sleeps on the new channel although its value is stored")
-			}
-		}
-		if n == 0 {
-			c.Unsure("MemDBV2.notify", token.NoPos, "no reader of the notification channel found")
-		}
-	})
-}
-
-func c07P9P10(c *rt.Ctx) {
-	c.Rule("P9", 1, func() {
-		fn := c.Fn("core/parsigdb.MemDB.store")
-		n := 0
-		for _, r := range an.Returns(fn) {
-			if len(r.Results) != 3 {
-				continue
-			}
-			rv := returnValues(r)
-			if an.IsNilConst(rv[0]) {
-				continue
-			}
-			if _, isLoad := rv[0].(*ssa.UnOp); isLoad && r.Block().Comment == "recover" {
-				continue
-			}
-			n++
-			good := false
-			v := an.Unwrap(rv[0])
-			if call, ok := v.(*ssa.Call); ok {
-				if b, ok := call.Call.Value.(*ssa.Builtin); ok && b.Name() == "append" && an.IsNilConst(call.Call.Args[0]) {
-					good = true
-				}
-				if f := call.Call.StaticCallee(); f != nil && an.FuncName(f) == "slices.Clone" {
-					good = true
-				}
-			}
-			c.Check("store returns a private snapshot", posOf(r), good,
-				"store hands the stored slice itself to the threshold matcher: the exempt-cap eviction filters that slice in place under a later lock, so the matcher can see a repeated or missing share")
-		}
-		if n == 0 {
-			c.Bail("store: no non-nil list returned")
-		}
-	})
-	c.Rule("P10", 1, func() {
-		fn := c.Fn("core/parsigdb.MemDB.trackExemptUnsafe")
-		for _, call := range c.SomeCalls(fn, an.Static("core/parsigdb.MemDB.evictExemptShareEntryUnsafe"), "evictExemptShareEntryUnsafe", false) {
-			good := false
-			if ld, ok := an.Unwrap(call.Common().Args[2]).(*ssa.UnOp); ok && ld.Op == token.MUL {
-				if ia, ok := ld.X.(*ssa.IndexAddr); ok {
-					if k, ok := an.ConstInt(ia.Index); ok && k == 0 {
-						// the indexed list is the tracked list (lookup of exemptEntries, possibly appended)
-						x := an.Unwrap(ia.X)
-						for i := 0; i < 4; i++ {
-							if ap, ok := x.(*ssa.Call); ok {
-								if b, ok := ap.Call.Value.(*ssa.Builtin); ok && b.Name() == "append" {
-									x = an.Unwrap(ap.Call.Args[0])
-									continue
-								}
-							}
-							break
-						}
-						if k2, _, ok := an.FieldOf(x); ok && k2 == memdb+".exemptEntries" {
-							good = true
-						}
-					}
-				}
-			}
-			c.Check("trackExemptUnsafe evicts the oldest tracked entry", call.Pos(), good,
-				"the entry evicted at the cap is not element 0 of the tracked list: the partial just stored is deleted again (store still reports success) and threshold is never reached for new duties")
-		}
-	})
 }
